@@ -62,6 +62,13 @@ def gen_spec(prop, rng, tier):
     spec = {'kind': KIND, 'prop': prop, 'wl': wl, 'entry': entry, 'fmt': fmt, 'quiet': rng.choice([1, 1, 0]) if entry.startswith('CLI') else 1,
             'repeat': 1 if (prop == 'C02' and rng.random() < 0.25 and not big) else 0,
             'ref_world': gen.gen_world(rng, calm=True), 'ref_nthreads': 1, 'ref2_junk': rng.getrandbits(62), 'runs': []}
+    # "however often the run is repeated": where no timestamp is part of the observable output (no log lines,
+    # no MSF date), every execution gets its own wall-clock epoch and step - a result that depends on the time
+    # of day (a time-seeded choice) then shows as a difference
+    clock_free = fmt != 'msf' and (entry in ('A', 'LIB') or (entry == 'CLI' and spec['quiet']))
+    if clock_free:
+        spec['ref_world']['clock_epoch'] = rng.randrange(0, 4102444800); spec['ref_world']['clock_step'] = rng.choice([0, 1, 7])
+    spec['clock_varies'] = 1 if clock_free else 0
     for r in range(nruns):
         v = rng.choices(['plain', 'preempt', 'asan'] if tier == 'thorough' else ['plain', 'preempt'], [5, 4, 2] if tier == 'thorough' else [5, 4])[0]
         if big and v == 'asan' and rng.random() < 0.5:
@@ -71,6 +78,8 @@ def gen_spec(prop, rng, tier):
         w = gen.gen_world(rng, preempt=(v == 'preempt'))
         if wl['profile'] == 'large':
             w['wall_limit'] = 120; w['p_hook_yield'] = min(w.get('p_hook_yield', 0), 2000)
+        if clock_free:
+            w['clock_epoch'] = rng.randrange(0, 4102444800); w['clock_step'] = rng.choice([0, 1, 3600])
         nt = gen.thread_count(rng)
         if wl['profile'] == 'hirsch' and rng.random() < 0.6:
             # the nested Hirschberg region only gets a real team when nesting is active and > 1 thread is asked for
@@ -92,6 +101,8 @@ def plans_of(spec):
     ix = plans.add_entry(p, wl, spec['entry'], spec['fmt'], spec['ref_nthreads'], spec['repeat'], quiet)
     out.append(('ref', 'serial', p, ix))
     rw2 = dict(rw); rw2['junk_seed'] = spec['ref2_junk']
+    if spec.get('clock_varies'):
+        rw2['clock_epoch'] = (rw.get('clock_epoch', 0) * 7 + 12345) % 4102444800
     p = plans.base_plan('ref2', rw2)
     plans.add_entry(p, wl, spec['entry'], spec['fmt'], spec['ref_nthreads'], spec['repeat'], quiet)
     out.append(('ref2', 'serial', p, ix))
